@@ -45,25 +45,24 @@ pub mod dt_axioms {
 
 /// R16 SHIMS: eager versions of Iterator::{map, filter_map, reduce} on an owned vector
 pub open spec fn maps_to<T, U, F: FnOnce(T) -> U>(f: F, x: T, y: U) -> bool { f.ensures((x,), y) }
-pub trait VAdapters<T>: Sized {
-    spec fn vseq(&self) -> Seq<T>;
+pub trait VAdapters<T>: Sized + vstd::view::View<V = Seq<T>> {
     fn vmap<U, F: Fn(T) -> U>(self, f: F) -> (r: Vec<U>)
-        requires forall|i: int| 0 <= i < self.vseq().len() ==> #[trigger] f.requires((self.vseq()[i],)),
-        ensures r@.len() == self.vseq().len(),
-            forall|i: int| 0 <= i < r@.len() ==> f.ensures((self.vseq()[i],), #[trigger] r@[i]),
-            forall|i: int| 0 <= i < r@.len() ==> f.ensures((#[trigger] self.vseq()[i],), r@[i]);
+        requires forall|i: int| 0 <= i < self@.len() ==> #[trigger] f.requires((self@[i],)),
+        ensures r@.len() == self@.len(),
+            forall|i: int| 0 <= i < r@.len() ==> f.ensures((self@[i],), #[trigger] r@[i]),
+            forall|i: int| 0 <= i < r@.len() ==> f.ensures((#[trigger] self@[i],), r@[i]);
     /// what is kept is what f produced, in order: there is an index map into the input
     fn vfilter_map<U, F: Fn(T) -> Option<U>>(self, f: F) -> (r: Vec<U>)
-        requires forall|i: int| 0 <= i < self.vseq().len() ==> #[trigger] f.requires((self.vseq()[i],)),
+        requires forall|i: int| 0 <= i < self@.len() ==> #[trigger] f.requires((self@[i],)),
         ensures
-            forall|j: int| 0 <= j < r@.len() ==> exists|i: int| 0 <= i < self.vseq().len() && f.ensures((self.vseq()[i],), Some(#[trigger] r@[j])),
-            forall|i: int| 0 <= i < self.vseq().len() ==> kept_if_some(f, #[trigger] self.vseq()[i], r@),
+            forall|j: int| 0 <= j < r@.len() ==> exists|i: int| 0 <= i < self@.len() && f.ensures((self@[i],), Some(#[trigger] r@[j])),
+            forall|i: int| 0 <= i < self@.len() ==> kept_if_some(f, #[trigger] self@[i], r@),
             // (the first clause at j == 0, stated for the solver)
-            r@.len() > 0 ==> exists|i: int| 0 <= i < self.vseq().len() && #[trigger] f.ensures((self.vseq()[i],), Some(r@[0]));
+            r@.len() > 0 ==> exists|i: int| 0 <= i < self@.len() && #[trigger] f.ensures((self@[i],), Some(r@[0]));
     /// the fold of f over the elements from the left; None iff there is no element
     fn vreduce<F: Fn(T, T) -> T>(self, f: F) -> (r: Option<T>)
         requires forall|a: T, b: T| #[trigger] f.requires((a, b)),
-        ensures (r is None) == (self.vseq().len() == 0), r is Some ==> reduce_rel(f, self.vseq(), r->Some_0);
+        ensures (r is None) == (self@.len() == 0), r is Some ==> reduce_rel(f, self@, r->Some_0);
 }
 pub open spec fn kept_if_some<T, U, F: Fn(T) -> Option<U>>(f: F, x: T, r: Seq<U>) -> bool {
     exists|y: Option<U>| #[trigger] f.ensures((x,), y) && (y is Some ==> r.contains(y->Some_0))
@@ -78,7 +77,6 @@ pub open spec fn reduce_rel<T, F: Fn(T, T) -> T>(f: F, s: Seq<T>, r: T) -> bool
     else { exists|acc: T| #[trigger] mark(acc) && reduce_rel(f, s.drop_last(), acc) && f.ensures((acc, s.last()), r) }
 }
 impl<T> VAdapters<T> for Vec<T> {
-    open spec fn vseq(&self) -> Seq<T> { self@ }
     #[verifier::external_body]
     fn vmap<U, F: Fn(T) -> U>(self, f: F) -> (r: Vec<U>) { self.into_iter().map(f).collect() }
     #[verifier::external_body]
